@@ -77,6 +77,15 @@ PROPS = {
                        "never call _ensure_registered/list_chunkmanagers/register, use no dynamic import; _ensure_registered has the single "
                        "caller dask_array.xarray.register; pyproject.toml declares no xarray entry point. Order-free, for all import orders.",
     },
+    "C02": {
+        "level": "proof",
+        "explanation": "rewrites whose body is index arithmetic are proved (slice-of-slice fusion, slice into source region, sliced chunk "
+                       "sizes); every rewrite that fires on the rewrite-target catalogue is validated (before/after values) as a bounded stand-in",
+    },
+    "C14": {
+        "level": "exploration",
+        "explanation": "rechunk: requested chunks and unchanged values over the catalogue; crosswalk and plan contracts under C15",
+    },
     "C12": {
         "level": "proof",
         "explanation": "indexing: normalisation, bounds refusal, per-block slice plan, chunk sizes",
